@@ -1,6 +1,6 @@
 //! spec -> impl: execute cases / behaviours emitted by TLC.
 use serde_json::Value;
-use sos_verif_harness::{account_world, crash_world, server_world, eventlog_world, sync_world, summary::Summary, tree_world};
+use sos_verif_harness::{account_world, crash_world, crypto_world, server_world, eventlog_world, sync_world, summary::Summary, tree_world};
 use std::io::BufRead;
 
 fn read_lines(path: &str) -> Vec<Value> {
@@ -139,6 +139,33 @@ fn main() {
                 .unwrap();
             rt.block_on(async {
                 if let Err(e) = crash_world::run_cases(&cases, &scratch, &child, &mut out, &known).await {
+                    eprintln!("harness error: {e:?}");
+                    std::process::exit(3);
+                }
+            });
+        }
+        "crypto" => {
+            // replay crypto <cases.ndjson> <scratch> <trace-out> <quick|thorough> <ops> <seed>
+            let scratch = std::path::PathBuf::from(&args[3]);
+            sos_verif_harness::init_audit(&scratch);
+            let cases = read_lines(&args[2]);
+            let trace = std::path::PathBuf::from(&args[4]);
+            let thorough = args.get(5).map(|s| s == "thorough").unwrap_or(false);
+            let ops: usize = args.get(6).and_then(|s| s.parse().ok()).unwrap_or(60);
+            let seed: u64 = args.get(7).and_then(|s| s.parse().ok()).unwrap_or(1);
+            let rt = tokio::runtime::Builder::new_multi_thread()
+                .worker_threads(2)
+                .enable_all()
+                .build()
+                .unwrap();
+            rt.block_on(async {
+                let r = async {
+                    crypto_world::run_cases(&cases, &mut out, thorough, &known).await?;
+                    crypto_world::kdf_checks(&mut out).await?;
+                    crypto_world::nonce_trace(&scratch, &trace, ops, seed, &mut out).await
+                }
+                .await;
+                if let Err(e) = r {
                     eprintln!("harness error: {e:?}");
                     std::process::exit(3);
                 }
